@@ -317,7 +317,12 @@ type PathSim struct {
 	maxPaths   int
 	paths      int
 	Truncated  int
-	out        []*Summary
+	// steps: basic blocks entered by all the paths of all the runs of this simulator; beyond MaxSteps the exploration
+	// stops and the simulator is marked exhausted (the check that owns it is then undecided, not passed)
+	steps     int64
+	MaxSteps  int64
+	Exhausted bool
+	out       []*Summary
 	// Model, if set, may supply the symbolic result of a call (nil = default).
 	Model func(ev *Event) *Sym
 	// Inline, if set, selects static callees that are interpreted in place
@@ -353,8 +358,17 @@ func (ps *PathSim) tables() *GlobalModel {
 	return ps.prog.Globals()
 }
 
+// defaultMaxSteps bounds the work of one simulator (the largest exploration on the unchanged tree enters about 20 thousand
+// blocks); exhaustedSims names the functions whose exploration was cut by it — runCheck turns each into an "undecided" failure.
+const defaultMaxSteps = 3000000
+
+var (
+	stepsHigh     int64
+	exhaustedSims []string
+)
+
 func NewPathSim(prog *Program) *PathSim {
-	return &PathSim{prog: prog, maxVisits: 2, maxPaths: 200000, MaxDepth: 3}
+	return &PathSim{prog: prog, maxVisits: 2, maxPaths: 200000, MaxDepth: 3, MaxSteps: defaultMaxSteps}
 }
 
 func isErrorCtor(fn *ssa.Function) bool {
@@ -1577,6 +1591,17 @@ func (ps *PathSim) walk(fn *ssa.Function, b *ssa.BasicBlock, start int, pred *ss
 			ps.Truncated++
 			return
 		}
+		ps.steps++
+		if ps.steps > stepsHigh {
+			stepsHigh = ps.steps
+		}
+		if ps.MaxSteps > 0 && ps.steps > ps.MaxSteps {
+			if !ps.Exhausted {
+				ps.Exhausted = true
+				exhaustedSims = append(exhaustedSims, fn.String())
+			}
+			return
+		}
 		havocNow := false
 		if start == 0 && pred != nil {
 			if args, rep, retI, ok := ps.tailSelfCall(fn, b, pred, st); ok {
@@ -1843,6 +1868,17 @@ func (ps *PathSim) walk(fn *ssa.Function, b *ssa.BasicBlock, start int, pred *ss
 					if ps.OnEvent != nil {
 						ps.OnEvent(st, &st.events[len(st.events)-1])
 					}
+					// the visit counts of an activation that is suspended by this (recursive) call belong to it: they are put
+					// back when the call returns — otherwise a loop around a recursive call would never reach its bound
+					var savedVisits map[*ssa.BasicBlock]int
+					if reentrant {
+						savedVisits = map[*ssa.BasicBlock]int{}
+						for _, cb := range callee.Blocks {
+							if n, ok := st.visits[cb]; ok {
+								savedVisits[cb] = n
+							}
+						}
+					}
 					for _, cb := range callee.Blocks {
 						delete(st.visits, cb)
 					}
@@ -1865,6 +1901,14 @@ func (ps *PathSim) walk(fn *ssa.Function, b *ssa.BasicBlock, start int, pred *ss
 							}
 							for k, v := range saved {
 								st2.env[k] = v
+							}
+						}
+						if savedVisits != nil {
+							for _, cb := range callee.Blocks {
+								delete(st2.visits, cb)
+							}
+							for cb, n := range savedVisits {
+								st2.visits[cb] = n
 							}
 						}
 						st2.env[x] = rs
